@@ -35,7 +35,10 @@ Streams of the direct oracles: valid programs under random layout, with every fl
 `run_jaqal_circuit`, `run_jaqal_string` (gate set in a module of a temporary directory, relative and absolute import),
 `parse_jaqal_output_list` (right / short / long lists, str / int entries); single-token deletions / duplications / swaps /
 replacements; character noise over the Jaqal alphabet and illegal characters; EVERY PREFIX of a sample of programs; unterminated
-`/*`; nesting 50 - 2000 levels deep in five shapes and a fine sweep around the recursion limit; integer literals up to 6000
+`/*`; nesting 50 - 2000 levels deep in five shapes and a fine sweep around the recursion limit; chains of 20 - 1200 macros each
+calling the previous one (also forwarding its arguments), of aliases of aliases and of slices of slices - flat for the builder,
+deep for the passes - through every expand flag, `run_jaqal_circuit` and `parse_jaqal_output_list`, and around each entry
+point's own limit at several caller stack depths; integer literals up to 6000
 digits; float literals that overflow / underflow; no register / two registers / let-sized registers; indexing lets, qubits and
 macro parameters; `from nosuch.mod usepulses *`, `from .nosuch usepulses *` with autoload.
 """
@@ -735,6 +738,42 @@ def reg_program(r):
     return "\n".join(lines) + "\n"
 
 
+def chain_text(kind, n, where="top"):
+    """long chains that are flat for the builder and deep for the passes"""
+    L = ["register r[2]"]
+    if kind == "macro":
+        L.append("macro m1 q { X q }")
+        L += [f"macro m{i} q {{ m{i - 1} q }}" for i in range(2, n + 1)]
+        call = f"m{n} r[0]"
+    elif kind == "forward":
+        L.append("macro m1 a b { CX a b }")
+        L += [f"macro m{i} a b {{ m{i - 1} b a }}" for i in range(2, n + 1)]
+        call = f"m{n} r[0] r[1]"
+    elif kind == "alias":
+        L.append("map a1 r")
+        L += [f"map a{i} a{i - 1}" for i in range(2, n + 1)]
+        call = f"X a{n}[1]"
+    elif kind == "slice":
+        L.append("map a1 r[0:2]")
+        L += [f"map a{i} a{i - 1}[0:2:1]" for i in range(2, n + 1)]
+        call = f"X a{n}[1]"
+    else:
+        raise ValueError(kind)
+    if where == "top":
+        L += ["prepare_all", call, "measure_all"]
+    elif where == "loop":
+        L += ["prepare_all", "loop 2 { " + call + " }", "measure_all"]
+    elif where == "par":
+        L += ["prepare_all", "< " + call + " >", "measure_all"]
+    else:
+        L += ["subcircuit { " + call + " }"]
+    return "\n".join(L) + "\n"
+
+
+CHAIN_FLAGS = [{"expand_macro": True}, {"expand_let": True}, {"expand_let_map": True},
+               {"expand_macro": True, "expand_let": True}, {"expand_macro": True, "expand_let_map": True}, {}]
+
+
 def int_literal_texts():
     out = []
     for nd in (1, 18, 19, 20, 100, 1000, 4299, 4300, 4301, 5000, 6000):
@@ -849,6 +888,8 @@ def call_text(call):
     """the text of a call (deeply nested texts are recorded by shape and depth)"""
     if call.get("text") is None and "nest" in call:
         return nest_shapes()[call["nest"]](call["depth"])
+    if call.get("text") is None and "chain" in call:
+        return chain_text(call["chain"], call["length"], call.get("where", "top"))
     return call.get("text")
 
 
@@ -1046,6 +1087,9 @@ def run(seed: int, n: int, driver: str = DEFAULT_DRIVER, thorough: bool = False)
                 if thorough:
                     _deeper(extra, lambda: check_call(w, dict(base, kind="parse", flags=FLAG_COMBOS[14]), stream="nest:flags"))
 
+    # long chains of macro calls / aliases / forwarded arguments: flat for the builder, deep for the passes and walkers
+    deep_chains(w, thorough)
+
     # parse_jaqal_output_list
     nout = 0
     for text, gs, ov in valid_texts[: max(20, nprog // 2)]:
@@ -1180,6 +1224,42 @@ def run(seed: int, n: int, driver: str = DEFAULT_DRIVER, thorough: bool = False)
 
 def _deeper(k, f):
     return f() if k == 0 else _deeper(k - 1, f)
+
+
+def deep_chains(w, thorough):
+    chain_lengths = [20, 100, 150, 250, 600, 1200] if thorough else [20, 150, 300, 1200]
+    for kind in ("macro", "forward", "alias", "slice"):
+        for where in (("top", "loop", "par", "sub") if thorough else (("top", "sub") if kind in ("macro", "forward") else ("top",))):
+            for nlen in chain_lengths:
+                base = {"gs": True, "chain": kind, "length": nlen, "where": where}
+                for fl in CHAIN_FLAGS:
+                    check_call(w, dict(base, kind="parse", flags=fl), stream="deep_chain:parse")
+                check_call(w, dict(base, kind="run"), stream="deep_chain:run")
+                check_call(w, dict(base, kind="output_list", output=[0]), stream="deep_chain:output_list")
+    # ... and just below the length at which each entry point starts to refuse, at several caller stack depths
+    for kind in ("macro", "forward", "alias"):
+        for probe in ({"kind": "parse", "flags": {"expand_macro": True}}, {"kind": "parse", "flags": {"expand_let_map": True}},
+                      {"kind": "run"}, {"kind": "output_list", "output": [0]}):
+            for extra in range(3 if not thorough else 7):
+                def ok(nlen):
+                    out = _deeper(extra, lambda: canon_call(dict(probe, gs=True, chain=kind, length=nlen, where="top"))[0])
+                    return "ok" in out
+                lo, hi = 10, 1500
+                if not ok(lo) or ok(hi):
+                    continue
+                while hi - lo > 1:
+                    mid = (lo + hi) // 2
+                    if ok(mid):
+                        lo = mid
+                    else:
+                        hi = mid
+                w.dist["deep_chain:limit:%s:%s:%d" % (kind, probe["kind"], hi // 25 * 25)] += 1
+                for nlen in range(hi - 2, hi + 1):
+                    base = {"gs": True, "chain": kind, "length": nlen, "where": "top", "extra_stack": extra}
+                    for fl in CHAIN_FLAGS[:5]:
+                        _deeper(extra, lambda: check_call(w, dict(base, kind="parse", flags=fl), stream="deep_chain:parse"))
+                    _deeper(extra, lambda: check_call(w, dict(base, kind="run"), stream="deep_chain:run"))
+                    _deeper(extra, lambda: check_call(w, dict(base, kind="output_list", output=[0]), stream="deep_chain:output_list"))
 
 
 def impl_quiet(text, gs):
